@@ -276,6 +276,24 @@ def campaign(ctx, prop, quick=None, only_major=None):
             findings.append((t["name"], f, ch, len(t["lines"]) - 1, "crash", "crash", "implementation died: " + dead[0][:200],
                              hdr(len(t["lines"]) - 1, "crash") + "--- script\n" + "\n".join(sl[:len(t["lines"])]) + "\n"))
     stats["layouts"] = len(by_tag)
+    # ---- correspondence: the VOC block-chain model (lean/SfModel/VocBlocks.lean, `sfmodel vocblocks`) against sf_open on every VOC layout ----
+    voc = [t for t in tests if t["f"].major == 0x08 and t["lines"]]
+    if voc:
+        inp = "".join(t["script"].split("\n", 1)[0].split()[2] + "\n" for t in voc)
+        ans = ctx.run_model(["vocblocks"], inp).strip().split("\n")
+        for t, a in zip(voc, ans):
+            stats["voc_model_files"] += 1
+            lib = t["lines"][1] if len(t["lines"]) > 1 else ""
+            if a.startswith("ok"):
+                stats["voc_model_ok"] += 1
+                kv = dict(x.split("=") for x in a.split()[1:])
+                want = "ch=%s sr=%s frames=%s fmt=%s" % (kv["ch"], kv["sr"], kv["frames"], kv["fmt"])
+                if not (lib.startswith("open=ok") and want in lib):
+                    t["corr"] = "Sf.VocBlocks.parseF says `%s` (data offset %s), sf_open says `%s`" % (want, kv.get("dataoffset"), lib[:120])
+            elif a.startswith("err") and lib.startswith("open=ok"):
+                t["corr"] = "Sf.VocBlocks.parseF refuses the file, sf_open says `%s`" % lib[:120]
+            if t.get("corr"):
+                stats["voc_model_disagreements"] += 1
     return findings, stats, dict(by_tag), tests
 
 
@@ -314,6 +332,13 @@ def run(ctx, prop):
         ctx.violation("%s-foreign-%s-%s" % (prop.lower(), name, cat),
                       "# %s on a FOREIGN-BUT-VALID file: %s, %d channel(s), layout `%s` (one change of layout applied to a library-written file; the audio bytes are untouched,\n"
                       "# so the frame count and every stream are those of the base file)\n# %s\n%s" % (prop, f.name, ch, name.split("+", 1)[1], text, replay))
+    corr = [t for t in tests if t.get("corr")]
+    ctx.coverage["traces_validated_against_impl"] += stats["voc_model_files"]
+    if corr and not nrep and not ctx.violations:
+        t = corr[0]
+        ctx.violation("%s-foreign-voc-correspondence" % prop.lower(),
+                      "# correspondence stream 'VOC block chain model vs implementation' no longer agrees on %d of %d files; the %s predicate found no failing input\n# first: %s: %s\n--- script\n%s"
+                      % (len(corr), stats["voc_model_files"], prop, t["name"], t["corr"], "\n".join(t["script"].split("\n")[:3]) + "\n"), no_input=True)
     ctx.coverage.setdefault("foreign_read", {}).update(dict(stats, by_tag=by_tag))
     if tests:
         t = tests[len(tests) // 2]
